@@ -596,6 +596,64 @@ fn steady_ab(base: &FdCfg, arrivals: u64, exact: bool) -> (Tally, Vec<Viol>) {
     (tally, viols)
 }
 
+/// Two lives and a final silence: a first life of n1 arrivals every d1, a silence beyond the bound
+/// (the member is found dead: the window is reset), a second life of n2 arrivals every d2, then a
+/// silence of bound + 1 ms: the member must be dead — whatever the first life left behind in the
+/// detector's buffers. All of C10's oracles apply at every evaluation on the way.
+pub fn two_lives(cfg: &FdCfg) -> (Tally, Vec<Viol>) {
+    let mut tally = Tally::default();
+    let mut viols = vec![];
+    let ds = [cfg.a_ms(), cfg.b_ms(), cfg.max_ms];
+    for &d1 in &ds {
+        for &n1 in &[3u64, 10, 70, 700, 1_100] {
+            for &d2 in &ds {
+                for &n2 in &[1u64, 2, 3, 63, 64, 65, 130] {
+                    tally.inc("schedules");
+                    let mut o = Observer::new(*cfg);
+                    let mut bad: Option<(&'static str, String, String)> = None;
+                    let res = guarded(|| {
+                        let mut run = |o: &mut Observer, n: u64, d: u64| -> Option<(&'static str, String, String)> {
+                            for _ in 0..n {
+                                o.step(Ev::Fresh);
+                                o.advance_raw(d);
+                                if let (_, Some(x)) = o.step(Ev::Eval) {
+                                    return Some(x);
+                                }
+                            }
+                            None
+                        };
+                        if let Some(x) = run(&mut o, n1, d1) {
+                            bad = Some(x);
+                            return;
+                        }
+                        o.step(Ev::AdvBoundPlus);
+                        if let (_, Some(x)) = o.step(Ev::Eval) {
+                            bad = Some(x);
+                            return;
+                        }
+                        if let Some(x) = run(&mut o, n2, d2) {
+                            bad = Some(x);
+                            return;
+                        }
+                        o.step(Ev::AdvBoundPlus);
+                        if let (_, Some(x)) = o.step(Ev::Eval) {
+                            bad = Some(x);
+                        }
+                    });
+                    tally.add("evaluations", n1 + n2 + 2);
+                    let replay = json!({"engine":"fd","kind":"two-lives","config":cfg.json(),"first_life":[n1,d1],"second_life":[n2,d2]});
+                    if let Err(p) = res {
+                        viols.push(Viol { prop: "C10", what: format!("panic: {p}"), sig: format!("panic:{}", short_loc(&p)), replay });
+                    } else if let Some((p, what, sig)) = bad {
+                        viols.push(Viol { prop: p, what: format!("{what} (first life: {n1} arrivals every {d1} ms; found dead; second life: {n2} arrivals every {d2} ms; final silence of bound + 1 ms; window {})", cfg.window), sig, replay });
+                    }
+                }
+            }
+        }
+    }
+    (tally, viols)
+}
+
 pub fn grid(tier: Tier) -> Vec<FdCfg> {
     let phis: Vec<f64> = tier.pick(vec![0.5, 2.0, 8.0], vec![0.5, 1.0, 2.0, 8.0, 16.0]);
     let windows: Vec<usize> = tier.pick(vec![1, 3, 1000], vec![1, 2, 3, 1000]);
@@ -706,6 +764,24 @@ pub fn run(property: &'static str, tier: Tier, started: Instant) -> Vec<Part> {
     p.sample(json!({"schedule": ["hb-fresh", "advance-a", "eval"], "arrivals": arrivals}));
     parts.push(p);
 
+    {
+        let mut t2 = Part::new("fd/two-lives");
+        t2.rule = "a first life of n1 in {3, 10, 70, 700, 1100} arrivals every d1, a silence beyond the bound (found dead: the sampling window is reset), a second life of n2 in {1, 2, 3, 63, 64, 65, 130} arrivals every d2, then a silence of bound + 1 ms; d1, d2 in {max/4, max/2, max_interval}; an evaluation after every arrival; same oracle at every evaluation — in particular the member must be dead after the final silence, whatever the first life left behind; configurations with phi = 2 of the grid (windows 1, 3, 1000)".into();
+        let mut viols = vec![];
+        for cfg in cfgs.iter().filter(|c| c.phi == 2.0) {
+            let (t, v) = two_lives(cfg);
+            t2.tally.merge(&t);
+            viols.extend(v);
+        }
+        push(&mut t2, viols, property);
+        t2.states = t2.tally.get("schedules");
+        t2.transitions = t2.tally.get("evaluations");
+        t2.executions = t2.tally.get("schedules");
+        t2.distinct_nontrivial = t2.tally.get("schedules");
+        t2.sample(json!({"first_life": [700, "max_interval"], "second_life": [65, "max/4"]}));
+        parts.push(t2);
+    }
+
     if property == "C11" {
         let mut s = Part::new("fd/steady-arrivals");
         s.rule = "fresh heartbeats at intervals drawn from {a, b} (every pattern of period <= 3, a = max_interval/4, b = max_interval/2), an evaluation after every interval, phi_threshold = b / min(a, initial_interval) x (1 + 1e-6) — and exactly b / min(a, initial_interval) where a = initial_interval in whole seconds, so that the arithmetic is exact —, for every (window, initial, max) of the grid: from the third value on every evaluation must say live; and the returning-member variant: a first life long enough to wrap the sampling window, a silence beyond the bound (found dead), then steady heartbeats again: from the second value after the return on, every evaluation must say live; the same with a finite dead-node grace period G = 4 x bound and a return after more than G/2 of being dead (member scheduled for deletion)".into();
@@ -757,6 +833,13 @@ pub fn replay(v: &Value) -> Result<(), String> {
                 }
             }
             Ok(())
+        }
+        "two-lives" => {
+            let (_, v) = two_lives(&cfg);
+            match v.first() {
+                Some(x) => Err(x.what.clone()),
+                None => Ok(()),
+            }
         }
         "periodic" => {
             let sched: Vec<Ev> = v["schedule"].as_array().map(|a| a.iter().filter_map(|e| Ev::from_name(e.as_str()?)).collect()).unwrap_or_default();
